@@ -6,7 +6,7 @@
    decompresses to a decodable set yields that set, relocated for format 1 ([wrapper_dec]); hence sets produced by
    create_gzip_message, and wrappers of wrappers, come back message for message. *)
 From Coq Require Import Lia.
-From AV Require Import Base.Util Model.Prim Model.Crc Model.MsgSet
+From AV Require Import Base.Util Model.Prim Model.Crc Model.MsgSet Model.KafkaSpecResp Model.Responses Model.RespView
      Proofs.PrimFacts Proofs.CrcBurst Proofs.DecodeTotal Proofs.Truncation.
 
 (* _decode_message on the output of _encode_message: checksum accepted, every field read back *)
@@ -193,11 +193,69 @@ Proof.
   rewrite (IH _ (offset + incr) incr). symmetry. apply IH.
 Qed.
 
-(* ------------------------------------------------------------------ the producer's path: create_message_set
-   (requests = (key, [payload...])) -> _encode_message_set -> decode gives back exactly the (key, payload) pairs *)
-Definition kv (m : message) : option (list Z) * option (list Z) := (m_key m, m_value m).
-Definition kv_ok (p : option (list Z) * option (list Z)) : bool := obytes_ok (fst p) && obytes_ok (snd p).
+(* the results above with the offsets spelled out (no decoder function in the statement): afkak stores every inner
+   message at offset 0; a format-0 outer wrapper passes that through, a format-1 outer wrapper at [off] reports
+   everything it contains at [off] *)
+Lemma expected_all_zero clock k msgs : Forall (fun om : omsg => fst om = 0) (expected clock k msgs 0 0).
+Proof.
+  apply Forall_forall. intros [o m] I.
+  assert (Io : In o (map fst (expected clock k msgs 0 0))) by (apply in_map_iff; exists (o, m); auto).
+  rewrite expected_zero_offsets in Io. apply in_map_iff in Io. destruct Io as (_ & <- & _). reflexivity.
+Qed.
 
+Lemma zero_offsets_all_at (ys : list omsg) : Forall (fun om => fst om = 0) ys -> ys = all_at 0 (map snd ys).
+Proof.
+  induction 1 as [|[o m] ys H _ IH]; [reflexivity|]. cbn [fst] in H. subst o. unfold all_at in *. cbn [map snd]. now rewrite <- IH.
+Qed.
+
+Lemma absolute_all_at off (ys : list omsg) :
+  Forall (fun om => fst om = 0) ys -> absolute off ys = all_at off (map snd ys).
+Proof. intros H. rewrite (absolute_zero off ys H). unfold all_at. now rewrite map_map. Qed.
+
+Lemma all_at_zero_forall off ms : Forall (fun om : omsg => fst om = 0) (all_at off ms) -> off = 0 \/ ms = [].
+Proof. destruct ms as [|m ms]; [now right|]. intros H. inversion H. now left. Qed.
+
+Section GzipOffsets.
+  Variable orc : oracle.
+  Hypothesis gz_roundtrip :
+    forall x z, bytes_ok x = true -> gz_enc orc x = Ok z -> gz_dec orc z = Ok x /\ bytes_ok z = true.
+
+  Theorem gzip_set_roundtrip_at d clock k k' msgs magic w off incr mg bs :
+    forallb plain msgs = true ->
+    create_gzip_message orc clock k msgs magic = Ok w ->
+    encode_message_set_from clock k' [w] off incr mg = Ok bs ->
+    dec_set (S (S d)) orc bs = (all_at (if (magic =? 0) then 0 else off) (map snd (expected clock k msgs 0 0)), None).
+  Proof.
+    intros Hp Hw He. rewrite (gzip_set_roundtrip orc gz_roundtrip d clock k k' msgs magic w off incr mg bs Hp Hw He).
+    pose proof (expected_all_zero clock k msgs) as Hz. destruct (magic =? 0).
+    - now rewrite <- (zero_offsets_all_at _ Hz).
+    - now rewrite (absolute_all_at off _ Hz).
+  Qed.
+
+  Theorem gzip_nested_roundtrip_at d clock k k1 k2 msgs magic1 w1 magic2 w2 off incr mg bs :
+    forallb plain msgs = true ->
+    create_gzip_message orc clock k msgs magic1 = Ok w1 ->
+    create_gzip_message orc clock k1 [w1] magic2 = Ok w2 ->
+    encode_message_set_from clock k2 [w2] off incr mg = Ok bs ->
+    dec_set (S (S (S d))) orc bs = (all_at (if (magic2 =? 0) then 0 else off) (map snd (expected clock k msgs 0 0)), None).
+  Proof.
+    intros Hp Hw1 Hw2 He.
+    rewrite (gzip_nested_roundtrip orc gz_roundtrip d clock k k1 k2 msgs magic1 w1 magic2 w2 off incr mg bs Hp Hw1 Hw2 He).
+    pose proof (expected_all_zero clock k msgs) as Hz.
+    assert (Hin : (if magic1 =? 0 then expected clock k msgs 0 0 else absolute 0 (expected clock k msgs 0 0))
+                  = all_at 0 (map snd (expected clock k msgs 0 0))).
+    { destruct (magic1 =? 0); [now rewrite <- (zero_offsets_all_at _ Hz)|now rewrite (absolute_all_at 0 _ Hz)]. }
+    rewrite Hin.
+    destruct (magic2 =? 0); [reflexivity|].
+    rewrite absolute_all_at.
+    - unfold all_at. now rewrite !map_map.
+    - apply Forall_forall. intros om I. unfold all_at in I. apply in_map_iff in I. destruct I as (x & <- & _). reflexivity.
+  Qed.
+End GzipOffsets.
+
+(* ------------------------------------------------------------------ the producer's path: create_message_set
+   (requests = (key, [payload...])) -> _encode_message_set -> decode gives back exactly the messages built from the
+   (key, payload) pairs, numbered as written *)
 Lemma map_snd_combine_seq {A} (l : list A) : forall s, map snd (combine (seq s (length l)) l) = l.
 Proof. induction l as [|x l IH]; intros s; [reflexivity|]. cbn [length seq combine map snd]. now rewrite IH. Qed.
 
@@ -210,32 +268,72 @@ Proof.
   destruct ((if magic =? 1 then 1 else 0) =? 1); reflexivity.
 Qed.
 
+(* every message create_message_set builds: format (magic = 1 ? 1 : 0), attributes 0, the request's key, the payload,
+   and for format 1 the clock reading made when it was built *)
+Lemma create_messages_spec clock reqs magic :
+  create_messages clock reqs magic
+  = map (fun ikp => mkMessage (if (magic =? 1) then 1 else 0) 0 (fst (snd ikp)) (snd (snd ikp))
+                              (if (magic =? 1) then Some (clock (fst ikp)) else None))
+        (combine (seq 0 (length (flatten_requests reqs))) (flatten_requests reqs)).
+Proof.
+  unfold create_messages. apply map_ext. intros [i [k p]]. unfold create_message. cbn [fst snd].
+  destruct (magic =? 1); reflexivity.
+Qed.
+
+Lemma created_in clock reqs magic m :
+  In m (create_messages clock reqs magic) ->
+  m_attr m = 0 /\ In (kv m) (flatten_requests reqs) /\ uses_clock m = false /\ (forall now, wire_view now m = m).
+Proof.
+  intros I. split; [|split; [|split]].
+  - rewrite create_messages_spec in I. apply in_map_iff in I. destruct I as (x & <- & _). reflexivity.
+  - rewrite <- (create_messages_kv clock reqs magic). now apply in_map.
+  - rewrite create_messages_spec in I. apply in_map_iff in I. destruct I as (x & <- & _).
+    unfold uses_clock. cbn [m_magic m_ts]. destruct (magic =? 1); reflexivity.
+  - rewrite create_messages_spec in I. apply in_map_iff in I. destruct I as (x & <- & _). intros now.
+    unfold wire_view. cbn [m_magic m_attr m_key m_value m_ts]. destruct (magic =? 1); reflexivity.
+Qed.
+
 Lemma create_messages_plain clock reqs magic :
   forallb kv_ok (flatten_requests reqs) = true -> forallb plain (create_messages clock reqs magic) = true.
 Proof.
-  intros H. apply forallb_forall. intros m I.
-  assert (Ik : In (kv m) (flatten_requests reqs)) by (rewrite <- (create_messages_kv clock reqs magic); now apply in_map).
+  intros H. apply forallb_forall. intros m I. destruct (created_in _ _ _ _ I) as (Ha & Ik & _ & _).
   rewrite forallb_forall in H. specialize (H _ Ik). unfold kv_ok, kv in H. cbn [fst snd] in H.
-  apply andb_prop in H. destruct H as [Hk Hv].
-  unfold create_messages in I. apply in_map_iff in I. destruct I as ([i [k p]] & <- & _).
-  unfold plain, create_message in *. cbn [fst snd] in *.
-  destruct ((if magic =? 1 then 1 else 0) =? 1); cbn [m_attr m_key m_value] in *; now rewrite Hk, Hv.
+  apply andb_prop in H. destruct H as [Hk Hv]. change bytes_or_null with obytes_ok in *.
+  unfold plain. now rewrite Ha, Hk, Hv.
 Qed.
 
-Lemma expected_kv clock msgs : forall k offset incr, map (fun om => kv (snd om)) (expected clock k msgs offset incr) = map kv msgs.
-Proof. induction msgs as [|m r IH]; intros k offset incr; [reflexivity|]. cbn [expected map snd]. now rewrite IH. Qed.
+(* messages that neither read the clock nor change on the wire come back numbered off, off+incr, ... *)
+Lemma expected_fixed clock msgs : forall k s offset incr,
+  (forall m, In m msgs -> uses_clock m = false /\ forall now, wire_view now m = m) ->
+  expected clock k msgs (offset + Z.of_nat s * incr) incr
+  = map (fun im => (offset + Z.of_nat (fst im) * incr, snd im)) (combine (seq s (length msgs)) msgs).
+Proof.
+  induction msgs as [|m r IH]; intros k s offset incr H; [reflexivity|].
+  destruct (H m (or_introl eq_refl)) as [Hu Hw].
+  cbn [expected length seq combine map fst snd]. rewrite Hu, Hw. f_equal.
+  replace (offset + Z.of_nat s * incr + incr) with (offset + Z.of_nat (S s) * incr) by lia.
+  apply IH. intros m' I. apply H. now right.
+Qed.
+
+Lemma expected_numbered clock k msgs offset incr :
+  (forall m, In m msgs -> uses_clock m = false /\ forall now, wire_view now m = m) ->
+  expected clock k msgs offset incr = numbered offset incr msgs.
+Proof.
+  intros H. pose proof (expected_fixed clock msgs k 0%nat offset incr H) as E.
+  replace (offset + Z.of_nat 0 * incr) with offset in E by lia. exact E.
+Qed.
 
 (* uncompressed *)
 Theorem producer_plain_roundtrip d orc clock reqs magic ws k' off incr mg bs :
   forallb kv_ok (flatten_requests reqs) = true ->
   create_message_set orc clock reqs CODEC_NONE magic = Ok ws ->
   encode_message_set_from clock k' ws off incr mg = Ok bs ->
-  exists ys, dec_set (S d) orc bs = (ys, None) /\ map (fun om => kv (snd om)) ys = flatten_requests reqs.
+  dec_set (S d) orc bs = (numbered off incr (create_messages clock reqs magic), None).
 Proof.
   intros Hb Hc He. unfold create_message_set in Hc. change (CODEC_NONE =? CODEC_NONE) with true in Hc. cbv iota in Hc.
-  injection Hc as <-. eexists. split.
-  - apply (complete_set d orc clock k' (create_messages clock reqs magic) off incr mg bs); [now apply create_messages_plain|exact He].
-  - now rewrite expected_kv, create_messages_kv.
+  injection Hc as <-.
+  rewrite (complete_set d orc clock k' (create_messages clock reqs magic) off incr mg bs); [|now apply create_messages_plain|exact He].
+  f_equal. apply expected_numbered. intros m I. destruct (created_in _ _ _ _ I) as (_ & _ & Hu & Hw). now split.
 Qed.
 
 (* gzip: one wrapper; a format-1 wrapper reports every message at the wrapper's offset, a format-0 wrapper at the
@@ -245,8 +343,7 @@ Theorem producer_gzip_roundtrip d orc clock reqs magic ws k' off incr mg bs :
   forallb kv_ok (flatten_requests reqs) = true ->
   create_message_set orc clock reqs CODEC_GZIP magic = Ok ws ->
   encode_message_set_from clock k' ws off incr mg = Ok bs ->
-  exists ys, dec_set (S (S d)) orc bs = (ys, None) /\ map (fun om => kv (snd om)) ys = flatten_requests reqs
-             /\ Forall (fun om => fst om = if (magic =? 0) then 0 else off) ys.
+  dec_set (S (S d)) orc bs = (all_at (if (magic =? 0) then 0 else off) (create_messages clock reqs magic), None).
 Proof.
   intros Hgz Hb Hc He. unfold create_message_set in Hc.
   change (CODEC_GZIP =? CODEC_NONE) with false in Hc. change (CODEC_GZIP =? CODEC_GZIP) with true in Hc. cbv iota in Hc.
@@ -255,16 +352,9 @@ Proof.
   destruct (create_gzip_message orc clock k msgs magic) as [w|] eqn:Hw; cbn [bind] in Hc; [|discriminate].
   injection Hc as <-.
   pose proof (create_messages_plain clock reqs magic Hb) as Hp. fold msgs in Hp.
-  rewrite (gzip_set_roundtrip orc Hgz d clock k k' msgs magic w off incr mg bs Hp Hw He).
-  pose proof (expected_zero_offsets clock msgs k) as Hz.
-  assert (Hall : Forall (fun om : omsg => fst om = 0) (expected clock k msgs 0 0)).
-  { apply Forall_forall. intros [o m] I.
-    assert (Io : In o (map fst (expected clock k msgs 0 0))) by (apply in_map_iff; exists (o, m); auto).
-    rewrite Hz in Io. apply in_map_iff in Io. destruct Io as (_ & <- & _). reflexivity. }
-  destruct (magic =? 0).
-  - eexists. split; [reflexivity|]. split; [|exact Hall].
-    rewrite expected_kv. apply create_messages_kv.
-  - eexists. split; [reflexivity|]. rewrite (absolute_zero off _ Hall). split.
-    + rewrite map_map. cbn [snd]. rewrite expected_kv. apply create_messages_kv.
-    + apply Forall_forall. intros om I. apply in_map_iff in I. destruct I as (x & <- & _). reflexivity.
+  rewrite (gzip_set_roundtrip_at orc Hgz d clock k k' msgs magic w off incr mg bs Hp Hw He).
+  f_equal. f_equal.
+  rewrite (expected_numbered clock k msgs 0 0).
+  - unfold numbered. rewrite map_map. cbn [snd]. apply map_snd_combine_seq.
+  - intros m I. destruct (created_in _ _ _ _ I) as (_ & _ & Hu & Hwv). now split.
 Qed.
